@@ -239,6 +239,13 @@ impl RawConnectorBuilder {
             left_feat_ids_tmp.push(feat_ids);
         }
 
+        if feat_template_size == 0 {
+            return Err(VibratoError::invalid_format(
+                "bigram.right/left",
+                "at least one connection id must be defined",
+            ));
+        }
+
         Ok(Self::new(
             right_feat_ids_tmp,
             left_feat_ids_tmp,
